@@ -545,54 +545,9 @@ impl W {
 
     fn check_allocator(&mut self) -> R {
         let snap = self.world().entities().verif_snapshot();
-        let alive: BTreeSet<u32> = snap.alive.iter().cloned().collect();
-        let raised: BTreeSet<u32> = snap.raised.iter().cloned().collect();
-        let killed: BTreeSet<u32> = snap.killed.iter().cloned().collect();
-        for (i, g) in snap.generations.iter().enumerate() {
-            if (*g > 0) != alive.contains(&(i as u32)) {
-                return Err(("C01", format!("allocator: index {} has generation {} but alive bit = {}", i, g, alive.contains(&(i as u32)))));
-            }
-        }
-        for i in alive.iter().chain(raised.iter()) {
-            if (*i as usize) >= snap.max_id {
-                return Err(("C01", format!("allocator: index {} is alive/raised but max_id = {}", i, snap.max_id)));
-            }
-        }
-        if let Some(i) = alive.iter().find(|i| (**i as usize) >= snap.generations.len()) {
-            return Err(("C01", format!("allocator: alive index {} has no generation entry", i)));
-        }
-        if let Some(i) = alive.intersection(&raised).next() {
-            return Err(("C01", format!("allocator: index {} is both alive and raised", i)));
-        }
-        if let Some(i) = killed.iter().find(|i| !alive.contains(i) && !raised.contains(i)) {
-            return Err(("C01", format!("allocator: index {} has a pending kill but is neither alive nor raised", i)));
-        }
-        let mut seen = BTreeSet::new();
-        for c in &snap.cache {
-            if !seen.insert(*c) {
-                return Err(("C01", format!("allocator: free list contains index {} twice", c)));
-            }
-            if alive.contains(c) || raised.contains(c) {
-                return Err(("C01", format!("allocator: free list contains index {} which is occupied", c)));
-            }
-            if (*c as usize) >= snap.max_id {
-                return Err(("C01", format!("allocator: free list contains never-used index {}", c)));
-            }
-        }
-        let occupied: BTreeSet<u32> = alive.union(&raised).cloned().collect();
         let model_occ: BTreeSet<u32> = self.model.occupant.keys().cloned().collect();
-        if occupied != model_occ {
-            return Err(("C02", format!("allocator: alive∪raised = {:?} but not-yet-dead indices are {:?}", trunc(&occupied), trunc(&model_occ))));
-        }
         let model_pd = self.model.pending_delete_indices();
-        if killed != model_pd {
-            return Err(("C02", format!("allocator: pending kills {:?} but deletions awaiting maintain are {:?}", trunc(&killed), trunc(&model_pd))));
-        }
-        let leaked: Vec<u32> = (0..snap.max_id as u32).filter(|i| !occupied.contains(i) && !seen.contains(i)).collect();
-        if !leaked.is_empty() {
-            return Err(("C17", format!("allocator: dead indices {:?} are missing from the free list (never recycled)", trunc(&leaked))));
-        }
-        Ok(())
+        crate::model::check_allocator(&snap, &model_occ, &model_pd)
     }
 
     fn check_all(&mut self, heavy: bool) -> R {
